@@ -13,7 +13,10 @@ import (
 // Knobs switch generator features on; a failing case is shrunk by turning knobs off.
 type Knobs map[string]bool
 
-// AllKnobs in a fixed order (documentation in CONTRACT.md).
+// AllKnobs in a fixed order (documentation in CONTRACT.md).  This list is FROZEN: the laboratories built on
+// fedlab (C07e, C08e, C09, C10, C14) use "all" / KnobsAll with fixed seeds and keep corpora keyed by
+// (seed, index), so "all" must keep meaning exactly this set and a knob that is off must not consume a
+// single random draw.  Later knobs go to ExtraKnobs and are opted into with "all2" / KnobsAllV2.
 var AllKnobs = []string{
 	// configuration
 	"sub3",      // 3-4 subgraphs instead of 2
@@ -36,6 +39,17 @@ var AllKnobs = []string{
 	"aliases", "fragments", "inlinefragments", "typename", "variables", "skipinclude", "deep", "dupfields",
 }
 
+// ExtraKnobs were added after AllKnobs was frozen; only checks that ask for them ("all2") see them.
+var ExtraKnobs = []string{
+	// interfaces declare object / list fields whose type is itself an interface or union and which some
+	// implementers narrow covariantly; operations select one inner response key under several combinations
+	// of outer and inner type conditions (needs interfaces)
+	"covariant",
+}
+
+// AllKnobsV2 = AllKnobs followed by ExtraKnobs.
+var AllKnobsV2 = append(append([]string(nil), AllKnobs...), ExtraKnobs...)
+
 func KnobsAll() Knobs {
 	k := Knobs{}
 	for _, n := range AllKnobs {
@@ -44,7 +58,17 @@ func KnobsAll() Knobs {
 	return k
 }
 
-// ParseKnobs: "all", "none", or a comma list; a leading '-' removes a knob from "all".
+// KnobsAllV2: every knob including ExtraKnobs.
+func KnobsAllV2() Knobs {
+	k := KnobsAll()
+	for _, n := range ExtraKnobs {
+		k[n] = true
+	}
+	return k
+}
+
+// ParseKnobs: "all" (the frozen AllKnobs), "all2" (AllKnobsV2), "none", or a comma list of knob names,
+// "all" / "all2" and "-name" removals; a list starting with a removal starts from "all".
 func ParseKnobs(s string) Knobs {
 	s = strings.TrimSpace(s)
 	if s == "" || s == "all" {
@@ -60,9 +84,18 @@ func ParseKnobs(s string) Knobs {
 	}
 	for _, p := range parts {
 		p = strings.TrimSpace(p)
-		if strings.HasPrefix(p, "-") {
+		switch {
+		case p == "all":
+			for n := range KnobsAll() {
+				k[n] = true
+			}
+		case p == "all2":
+			for n := range KnobsAllV2() {
+				k[n] = true
+			}
+		case strings.HasPrefix(p, "-"):
 			delete(k, p[1:])
-		} else if p != "" {
+		case p != "":
 			k[p] = true
 		}
 	}
@@ -71,7 +104,7 @@ func ParseKnobs(s string) Knobs {
 
 func (k Knobs) String() string {
 	var on []string
-	for _, n := range AllKnobs {
+	for _, n := range AllKnobsV2 {
 		if k[n] {
 			on = append(on, n)
 		}
@@ -356,6 +389,9 @@ func GenConfig(r *common.Rand, k Knobs) *Config {
 		if nI == 0 && r.Chance(1, 2) {
 			nI = 1
 		}
+		if k["covariant"] && nI == 0 {
+			nI = 1
+		}
 		for i := 0; i < nI; i++ {
 			h := r.Pick(g.nSub)
 			var cands []*gType
@@ -434,6 +470,9 @@ func GenConfig(r *common.Rand, k Knobs) *Config {
 					t.def.Fields = append(t.def.Fields, fd)
 					t.owner[fd.Name] = []int{h}
 				}
+			}
+			if k["covariant"] {
+				g.addCovariant(query, idef, impls, h, i+1)
 			}
 			for _, t := range impls {
 				t.def.Implements = append(t.def.Implements, idef.Name)
